@@ -61,22 +61,20 @@ theorem C15_predictive_entries (v : Variant) (kinds : List EM) (nT nS : Nat) (sd
       obtain ⟨p, hp, h1, h3⟩ := (mem_grid (nT := nT) (nS := nS) (s := s) (t := t)).mpr ⟨hs, ht⟩
       exact ⟨o, ho, p, hp, h1.symm, rfl, h3.symm⟩
 
-/-- Every entry of `PredictiveModel.sample` is the error-model transformation of *its own* variates
-    around the mechanistic output for its output and time: own error model, own parameter slice, and
-    (for a `Generator`, no seed, or — intended variant — any seed) noise variates no other entry reads;
-    every entry does read noise. -/
-theorem C15_predictive_law (v : Variant) (kinds : List EM) (sig : List ℝ) (ybar : Nat → Nat → ℝ)
-    (nT nS : Nat) (sd : SeedArg) (w : World) (Z : Read → ℝ)
-    (hsd : v.sharedSeed = true → ∀ s, sd ≠ .int s) :
-    (∀ e ∈ predictiveValues v kinds sig ybar nT nS sd w Z,
-      ∃ c ∈ (predSample v kinds nT nS sd w).1.1.cells, e.1 = (c.unit, c.out, c.time) ∧ c.noise ≠ [] ∧
+/-- Every entry of `PredictiveModel.sample` (the code as it is, every kind of seed) is the error-model
+    transformation of *its own* variates around the mechanistic output for its output and time: own error
+    model, own parameter slice, and noise variates no other entry reads; every entry does read noise. -/
+theorem C15_predictive_law (d : Int) (kinds : List EM) (sig : List ℝ) (ybar : Nat → Nat → ℝ)
+    (nT nS : Nat) (sd : SeedArg) (w : World) (Z : Read → ℝ) :
+    (∀ e ∈ predictiveValues (asIs d) kinds sig ybar nT nS sd w Z,
+      ∃ c ∈ (predSample (asIs d) kinds nT nS sd w).1.1.cells, e.1 = (c.unit, c.out, c.time) ∧ c.noise ≠ [] ∧
         e.2 = emTransform (kinds.getD c.out .gauss) (sliceFor kinds sig c.out) (ybar c.out c.time) (c.noise.map Z)) ∧
-    Indep (predSample v kinds nT nS sd w).1.1.cells := by
-  refine ⟨?_, indep_pred v kinds nT nS sd w hsd⟩
+    Indep (predSample (asIs d) kinds nT nS sd w).1.1.cells := by
+  refine ⟨?_, indep_pred (asIs d) kinds nT nS sd w (fun h => by simp [asIs] at h)⟩
   intro e he
   simp only [predictiveValues, List.mem_map] at he
   obtain ⟨c, hc, rfl⟩ := he
-  exact ⟨c, hc, rfl, hasNoise_pred v kinds nT nS sd w c hc, rfl⟩
+  exact ⟨c, hc, rfl, hasNoise_pred (asIs d) kinds nT nS sd w c hc, rfl⟩
 
 /-- Gaussian error model: `ybar + sigma Z` with `Z ~ N(0,1)` is `N(ybar, sigma²)` -/
 theorem C15_predictive_law_gaussian (ybar sigma : ℝ) :
@@ -142,47 +140,21 @@ theorem C15_population_two_stage (v : Variant) (p : Pop) (kinds : List EM) (nT n
 
 /-! ## posterior predictive model -/
 
-/-- Whenever the selection code of `PosteriorPredictiveModel.sample` succeeds on a dataset whose
-    variables share chain and draw counts and their dimension order (for any number of variables,
-    chains, draws, individuals, any pattern of NaN-padded draws): every row of the parameter matrix —
-    hence every drawn parameter vector — is ONE `(chain, draw)` position of the posterior restricted to
-    the requested individual: the same position for every parameter, a draw that the dataset kept,
-    and no entry is NaN. -/
-theorem C15_posterior_joint_partial {α : Type} (vars : List (PostVar α)) (i nC nD : Nat) (b : Bool)
-    (hC : ∀ v ∈ vars, v.nChains = nC) (hD : ∀ v ∈ vars, v.nDraws = nD) (hB : ∀ v ∈ vars, v.drawMajor = b)
-    (cols : List (List (Option α))) (hok : posteriorColumns vars i = some cols)
-    (idx : Nat) (hidx : idx < nC * (keptAll vars i).length) :
-    ∃ c d, c < nC ∧ d ∈ keptAll vars i ∧
-      posteriorRow cols idx = vars.map (fun v => v.sel i c d) ∧
-      ∀ v ∈ vars, (v.sel i c d).isSome = true := by
-  have hpos : 0 < nC := by
-    rcases Nat.eq_zero_or_pos nC with h | h
-    · subst h; simp at hidx
-    · exact h
-  have hcols := columns_joint vars i nC nD b hC hD hB hpos cols hok
-  have hlt : idx < (jointLayout b nC (keptAll vars i)).length := by rw [length_jointLayout]; exact hidx
-  have hmem := mem_jointLayout (List.getElem_mem hlt)
-  refine ⟨(jointLayout b nC (keptAll vars i))[idx].1, (jointLayout b nC (keptAll vars i))[idx].2,
-    hmem.1, hmem.2, ?_, ?_⟩
-  · rw [hcols]
-    simp only [posteriorRow, List.map_map]
-    apply List.map_congr_left
-    intro v _
-    simp only [Function.comp]
-    exact getD_map_of_lt _ _ _ _ hlt
-  · intro v hv
-    exact keptAll_isSome vars i _ hmem.2 v hv _ (by rw [hC v hv]; exact hmem.1)
-
-/-- The repaired selection (every variable transposed to `(chain, draw, …)` before flattening): the
-    same conclusion without any assumption on the variables' own dimension orders. -/
+/-- Whenever the selection code of `PosteriorPredictiveModel.sample` (per variable:
+    `sel(individual)`, `dropna('draw')`, `transpose('chain', 'draw', …)`, `values.flatten()`; one row index
+    for all parameters) succeeds on a dataset whose variables share chain and draw counts — for any number
+    of variables, chains, draws, individuals, any pattern of NaN-padded draws and ANY dimension order of
+    the individual variables: every row of the parameter matrix — hence every drawn parameter vector —
+    is ONE `(chain, draw)` position of the posterior restricted to the requested individual: the same
+    position for every parameter, a draw that the dataset kept, and no entry is NaN. -/
 theorem C15_posterior_joint {α : Type} (vars : List (PostVar α)) (i nC nD : Nat)
     (hC : ∀ v ∈ vars, v.nChains = nC) (hD : ∀ v ∈ vars, v.nDraws = nD)
-    (cols : List (List (Option α))) (hok : posteriorColumns (vars.map PostVar.canonical) i = some cols)
+    (cols : List (List (Option α))) (hok : posteriorColumns vars i = some cols)
     (idx : Nat) (hidx : idx < nC * (keptAll (vars.map PostVar.canonical) i).length) :
     ∃ c d, c < nC ∧ d ∈ keptAll (vars.map PostVar.canonical) i ∧
       posteriorRow cols idx = vars.map (fun v => v.sel i c d) ∧
       ∀ v ∈ vars, (v.sel i c d).isSome = true := by
-  obtain ⟨c, d, hc, hd, hrow, hsome⟩ := C15_posterior_joint_partial (vars.map PostVar.canonical) i nC nD false
+  obtain ⟨c, d, hc, hd, hrow, hsome⟩ := posterior_joint_same_order (vars.map PostVar.canonical) i nC nD false
     (by intro v hv; obtain ⟨u, hu, rfl⟩ := List.mem_map.mp hv; exact hC u hu)
     (by intro v hv; obtain ⟨u, hu, rfl⟩ := List.mem_map.mp hv; exact hD u hu)
     (by intro v hv; obtain ⟨u, hu, rfl⟩ := List.mem_map.mp hv; rfl)
@@ -192,13 +164,26 @@ theorem C15_posterior_joint {α : Type} (vars : List (PostVar α)) (i nC nD : Na
   · intro v hv
     exact hsome v.canonical (List.mem_map.mpr ⟨v, hv, rfl⟩)
 
-/-- The code as it is on a dataset whose variables have different dimension orders (2 chains, 3
+/-- the draws kept do not depend on the dimension order: the statement above is about the dataset's own
+    kept draws -/
+theorem C15_posterior_kept_draws {α : Type} (vars : List (PostVar α)) (i : Nat) :
+    keptAll (vars.map PostVar.canonical) i = keptAll vars i := by
+  cases vars with
+  | nil => rfl
+  | cons v rest =>
+    simp only [keptAll, List.map_cons]
+    congr 1
+    funext d
+    simp only [List.all_cons, List.all_map]
+    rfl
+
+/-- The pre-fix code (`posteriorColumnsLegacy`, before b371b27) on a dataset whose variables have different dimension orders (2 chains, 3
     draws, `psi0` stored as `(chain, draw)`, `psi1` as `(draw, chain)`): matrix row 2 pairs `psi0` of
     chain 0, draw 2 with `psi1` of chain 0, draw 1 — no `(chain, draw)` position of the posterior. -/
 theorem C15_posterior_joint_counterexample :
     let psi0 : PostVar Nat := ⟨false, false, [[[some 100], [some 101], [some 102]], [[some 110], [some 111], [some 112]]]⟩
     let psi1 : PostVar Nat := ⟨false, true, [[[some 200], [some 201], [some 202]], [[some 210], [some 211], [some 212]]]⟩
-    ∃ cols, posteriorColumns [psi0, psi1] 0 = some cols ∧
+    ∃ cols, posteriorColumnsLegacy [psi0, psi1] 0 = some cols ∧
       posteriorRow cols 2 = [some 102, some 201] ∧
       ∀ c d, ¬ (psi0.sel 0 c d = some 102 ∧ psi1.sel 0 c d = some 201) := by
   refine ⟨_, rfl, by decide, ?_⟩
@@ -329,22 +314,35 @@ theorem C15_times_ascending {τ : Type} [LinearOrder τ] (ts : List τ) :
 
 /-! ## sample sizes different from the stored `n_ids` -/
 
-/-- pooled dimensions (after `fix: f54d322`): as many individuals as were drawn, each with the pooled
-    value, whatever `n_ids` the model was last used with -/
-theorem C15_nids {α : Type} (theta : List α) (eta : List (List α)) :
-    (pooledIndividuals theta eta).length = eta.length ∧ ∀ row ∈ pooledIndividuals theta eta, row = theta := by
-  simp [pooledIndividuals]
+/-- The code as it is (f54d322, 7e1e7bd), for every number of drawn individuals and every stored `n_ids`:
+    pooled dimensions get as many individuals as were drawn, each with the pooled value; heterogeneous
+    dimensions get exactly the individuals drawn by `sample` (rows of the stored parameters chosen by the
+    seeded generator) — `compute_individual_parameters` returns an array a composed model accepts, and
+    every column of the container is written. -/
+theorem C15_nids {α : Type} (theta : List α) (stored eta : List (List α)) :
+    ((pooledIndividuals theta eta).length = eta.length ∧ ∀ row ∈ pooledIndividuals theta eta, row = theta) ∧
+    popPredHetero false stored eta = eta ∧
+    composedAccepts false stored eta = true ∧
+    fillColumns eta.length (popPredHetero false stored eta).length = .ok (List.replicate eta.length true) := by
+  refine ⟨by simp [pooledIndividuals], rfl, ?_, ?_⟩
+  · simp only [composedAccepts, heteroIndividuals, Bool.false_eq_true, if_false, beq_iff_eq]
+    split
+    · rfl
+    · rename_i h; have := not_not.mp h; exact this.symm
+  · simp only [popPredHetero, Bool.false_eq_true, if_false, fillColumns, Nat.lt_irrefl, if_false]
+    congr 1
+    apply List.ext_getElem <;> simp
 
-/-- heterogeneous dimensions as they are: the stored individuals come back whatever was drawn — with
-    5 drawn and 3 stored individuals 3 patients (then: a broadcast error in a composed model, two
-    unwritten columns for the bare model), with 2 drawn and 3 stored an `IndexError`; and with equal
-    numbers the drawn rows are ignored. -/
+/-- Before 7e1e7bd: the stored individuals came back whatever was drawn — with 5 drawn and 3 stored
+    individuals 3 patients (a broadcast error in a composed model, two unwritten columns for the bare
+    model), with 2 drawn and 3 stored an `IndexError`; and with equal numbers the drawn rows were ignored. -/
 theorem C15_nids_counterexample :
-    (heteroIndividuals true [[1], [2], [3]] [[3], [3], [1], [2], [2]]).length = 3 ∧
+    (popPredHetero true [[1], [2], [3]] [[3], [3], [1], [2], [2]]).length = 3 ∧
+    composedAccepts true [[1], [2], [3]] [[3], [3], [1], [2], [2]] = false ∧
     fillColumns 5 3 = .ok [true, true, true, false, false] ∧
     fillColumns 2 3 = .error "indexError" ∧
-    heteroIndividuals true [[1], [2], [3]] [[3], [3], [1]] = [[1], [2], [3]] ∧
-    heteroIndividuals false [[1], [2], [3]] [[3], [3], [1]] = [[3], [3], [1]] := by
+    popPredHetero true [[1], [2], [3]] [[3], [3], [1]] = [[1], [2], [3]] ∧
+    popPredHetero false [[1], [2], [3]] [[3], [3], [1]] = [[3], [3], [1]] := by
   decide
 
 end ChiModel.Pred
